@@ -18,6 +18,8 @@
 -/
 import IgrisModel.C15.Lemmas9
 import IgrisModel.C15.Lemmas10
+import IgrisModel.C15.Lemmas11
+import IgrisModel.C15.Lemmas12
 namespace Igris.C15
 open Igris.Proto
 
@@ -314,10 +316,13 @@ theorem newdata_int_length (cap : Nat) (hcap : 1 ≤ cap) (ops : List SOp) (d : 
 example : ((Sline.init 4).newdataI [0x61, 0x62] (-5)).2 = 0 ∧ ((Sline.init 4).newdataI [0x61, 0x62] 1).1.text = [0x61] := by
   decide
 
-/-- capacity 0 is outside the contract (finding C15-capacity-zero): already the
-first typed character / the terminator is stored outside the 0-byte buffer -/
+/-- capacity 0 (finding C15-capacity-zero), what is left of it after the two
+repairs of the sline half (fix bd7ecca: `sline_putchar` refuses; round 3:
+`sline_getline` writes no terminator without a buffer — `sline_any_capacity`
+below): a READLINE over a 0-byte line buffer still reads `history_space[0]` of a
+0-byte history on the first Up (`strlen` of an empty object). -/
 theorem capacity_zero_witness :
-    ((Sline.init 0).putchar 0x61).1.fault = true ∧ (Sline.init 0).getline.fault = true := by decide
+    ((((Readline.init 0 1).putchar ESC).1.putchar 0x5b).1.putchar 0x41).1.faulted = true := by decide
 
 /-! ### readline_linecpy -/
 
@@ -565,5 +570,244 @@ example : keyPresses [CR, LF, CR, LF] = [.enter, .enter] ∧
     keyPresses [ESC, 0x5b, 0x33, 0x7e, 0x61] = [.delete, .char 0x61] ∧
     keyPresses [ESC, ETX, 0x5b, 0x41] = [.interrupt, .char 0x5b, .char 0x41] ∧
     keyPresses [ESC, 0x5b, 0x5a, ESC, 0x5b, 0x44] = [.left] := by decide
+
+/-! ## Extension round 3 -/
+
+/-! ### sline: every capacity, 0 included -/
+
+/-- THE EDIT BUFFER IS SAFE FOR EVERY CAPACITY, 0 INCLUDED (after fix bd7ecca and
+the round-3 fix of `sline_getline`): for every history of API calls `cursor ≤
+len`, `len < cap` — or `len = 0` when there is no buffer at all —, and no access
+left the buffer.  A line without a buffer stays the empty line whatever is called. -/
+theorem sline_any_capacity (cap : Nat) (ops : List SOp) :
+    let s := (Sline.init cap).runOps ops
+    s.cursor ≤ s.len ∧ (s.len < cap ∨ (cap = 0 ∧ s.len = 0)) ∧ s.buf.length = cap ∧ s.fault = false ∧
+    (cap = 0 → s = Sline.init 0) := by
+  intro s
+  by_cases h0 : cap = 0
+  · subst h0
+    have e : s = Sline.init 0 := runOps_cap0 ops
+    rw [e]
+    exact ⟨Nat.le_refl _, Or.inr ⟨rfl, rfl⟩, rfl, rfl, fun _ => rfl⟩
+  · obtain ⟨a, b, _, d, e⟩ := sline_inv cap (by omega) ops
+    exact ⟨a, Or.inl b, d, e, fun h => absurd h h0⟩
+
+example : ((Sline.init 0).runOps [.putchar 0x61, .newdata [1, 2], .getline, .backspace 3]) = Sline.init 0 := by decide
+
+/-! ### `sline_avail` / `sline_newdata` at the C widths (`unsigned int` fields, `int` results) -/
+
+/- `sline_newdata` clamps to `sline_avail(sl) - 1` where `sline_avail` is `(int)(cap - len)`:
+for a buffer of 2^31 bytes or more that `int` is negative and NOTHING is inserted although
+there is room (for exactly 2^31 free bytes `avail - 1` overflows: undefined).  The wrapper
+`igris::sline::newdata(data, size_t)` narrows its size to `int` in the same way.  `_partial` =
+capacities and sizes below 2^31, where the C arithmetic is the unbounded arithmetic of
+`newdataI` (so `sline_inv`, `sline_refines_zipper`, `newdata_int_length` speak about the code);
+finding C15-newdata-2g. -/
+
+/-- below 2^31 the C widths do not matter: in every reachable state `sline_newdata`
+computed with 32-bit `unsigned` / `int` intermediates is the unbounded `newdataI`, and
+`igris::sline::newdata(data, sz)` is `newdataI` with `sz` -/
+theorem newdata_widths_partial (cap : Nat) (hcap : 1 ≤ cap) (hc : cap < 2147483648) (ops : List SOp) (d : List Byte) :
+    (∀ n : Int, ((Sline.init cap).runOps ops).newdataC d n = ((Sline.init cap).runOps ops).newdataI d n) ∧
+    (∀ sz : Nat, sz < 2147483648 →
+      ((Sline.init cap).runOps ops).newdataSz d sz = ((Sline.init cap).runOps ops).newdataI d (sz : Int)) := by
+  obtain ⟨_, h2, h3, _, _⟩ := sline_inv cap hcap ops
+  have hl : ((Sline.init cap).runOps ops).len ≤ ((Sline.init cap).runOps ops).cap := by rw [h3]; omega
+  have hc' : ((Sline.init cap).runOps ops).cap < 2147483648 := by rw [h3]; exact hc
+  refine ⟨fun n => newdataC_eq _ hl hc' d n, fun sz hsz => ?_⟩
+  unfold Sline.newdataSz
+  rw [newdataC_eq _ hl hc' d]
+  congr 1
+  unfold toInt32
+  rw [Nat.mod_eq_of_lt (by omega), if_pos hsz]
+
+example : ((Sline.init 4).newdataC [0x61, 0x62, 0x63, 0x64] 4).1.text = [0x61, 0x62, 0x63] := by decide
+
+/-- at 2^31 and beyond they do: a buffer of 2^31 + 1 bytes (the first 4 materialised), empty line,
+2 bytes offered: nothing is inserted; with exactly 2^31 free bytes `avail - 1` overflows; a size of
+2^31 passed to the C++ wrapper is a negative `int` -/
+theorem newdata_widths_witness :
+    ((⟨[0, 0, 0, 0], 2147483649, 0, 0, false⟩ : Sline).newdataC [0x61, 0x62] 2).2 = 0 ∧
+    ((⟨[0, 0, 0, 0], 2147483649, 0, 0, false⟩ : Sline).newdataI [0x61, 0x62] 2).2 = 2 ∧
+    ((⟨[0, 0, 0, 0], 2147483648, 0, 0, false⟩ : Sline).newdataC [0x61, 0x62] 2).1.fault = true ∧
+    ((Sline.init 4).newdataSz [0x61, 0x62] 2147483648).2 = 0 := by decide
+
+/-! ### the `int16_t` parameter of `vterm_automate_newdata` -/
+
+/- The property speaks of "every byte sequence typed".  igris' own callers hold
+the byte in a (signed) `char` and pass it to the `int16_t` parameter; the
+parameter's negative range used to be "no character" as a whole, so every byte
+≥ 0x80 (all of UTF-8) was dropped on that path.  After `fix: only
+VTERM_INIT_STEP is the init step` every byte except 0xFF arrives
+(`char_parameter_partial`); 0xFF sign-extends to -1 = VTERM_INIT_STEP and cannot
+be told from it (`char_parameter_witness`, finding C15-char-ff). -/
+
+/-- a byte held in a `char` and passed to the `int16_t` parameter is the key press
+of that byte — for every byte but 0xFF, in every state of the terminal -/
+theorem char_parameter_partial (v : Vterm) (b : Byte) (hb : b ≠ 0xFF) : v.keyI (sextChar b) = v.key b :=
+  keyI_char v b hb
+
+example : sextChar 0xC3 = -61 ∧ (Vterm.init 4 1 false).keyI (-61) = (Vterm.init 4 1 false).key 0xC3 := by decide
+
+/-- 0xFF through a `char` is the init step: no character is typed -/
+theorem char_parameter_witness :
+    sextChar 0xFF = -1 ∧
+    (Vterm.init 4 1 false).actEvents [.keyI (sextChar 0xFF), .key CR] = [.exec []] ∧
+    (Ref.init 1).events 4 [0xFF, CR] = [.exec [0xFF]] := by decide
+
+/-- the parameter as a whole: `-1` is the init step, every other `int16_t` types
+its low 8 bits (`(char)input_c`) -/
+theorem int16_parameter (v : Vterm) (i : Int) :
+    (i = -1 → v.keyI i = (v.initStep.1, v.initStep.2, [])) ∧ (i ≠ -1 → v.keyI i = v.key (BitVec.ofInt 8 i)) := by
+  unfold Vterm.keyI
+  exact ⟨fun h => by rw [if_pos h], fun h => by rw [if_neg h]⟩
+
+/-! ### one object, settings changed between the keys -/
+
+/-- A SESSION WITH EVERYTHING A CALLER CAN DO BETWEEN KEYS.  Keys given as bytes
+or as any `int16_t`, init steps at any time, `set_prompt` with ANY bytes
+(unprintable included) and `set_echo` at any time, in any order: the callback
+events are the reference editor's on the bytes that were typed, no access leaves
+the line or the history, the bounds hold, and line / cursor / browse position are
+the reference's.  (What the prompt and the echo flag change is the written
+bytes only.) -/
+theorem session_with_settings (cap depth : Nat) (hcap : 1 ≤ cap) (hd : 1 ≤ depth) (cxx : Bool) (prompt : List Byte)
+    (as : List Act) :
+    let v0 := Vterm.init cap depth cxx prompt
+    let v := v0.runActs as
+    let r := (Ref.init depth).run cap (Act.typed as)
+    v0.actEvents as = (Ref.init depth).events cap (Act.typed as) ∧
+    (v.rl.faulted = false ∧ v.rl.line.cursor ≤ v.rl.line.len ∧ v.rl.line.len < cap ∧ v.rl.headhist < depth ∧
+      v.rl.curhist ≤ depth) ∧
+    (v.nrl.line.text = r.z.line ∧ v.nrl.line.cursor = r.z.left.length ∧ v.nrl.curhist = r.browse) := by
+  intro v0 v r
+  obtain ⟨h1, h2⟩ := acts_sim cap depth hd v0 (Ref.init depth) as (init_sim cap depth hcap hd cxx prompt)
+  have s := safe_of_sim cap depth _ _ h1
+  have e := editor_of_sim cap depth _ _ h1
+  exact ⟨h2, ⟨s.1, s.2.1, s.2.2.1, s.2.2.2.2.2.1, s.2.2.2.2.2.2⟩, ⟨e.1, e.2.1, e.2.2.1⟩⟩
+
+/-- non-vacuity: an unprintable prompt set mid-line, echo switched off and on, a
+byte through the `char` path, an init step in the middle -/
+example : (Vterm.init 6 1 true).actEvents [.key 0x61, .setPrompt [0x07, 0x00 + 0x1b], .setEcho false, .keyI (-61), .initStep,
+      .setEcho true, .key CR, .keyI 0x162, .key LF] = [.exec [0x61, 0xC3], .exec [0x62]] ∧
+    Act.typed [.key 0x61, .setPrompt [0x07, 0x1b], .setEcho false, .keyI (-61), .initStep, .setEcho true, .key CR,
+      .keyI 0x162, .key LF] = [0x61, 0xC3, CR, 0x62, LF] := by decide
+
+/-- `set_prompt` with an unprintable byte: the line is still the reference's
+(`session_with_settings`), the screen clause is not — the prompt is written as
+it is, BEL does not occupy a cell (the limit `AllP prompt` of
+`screen_matches_partial` is needed) -/
+theorem unprintable_prompt_witness :
+    Screen.blank.feed ((Vterm.init 4 1 false [0x07, 0x24]).echoed [0x61]) ≠
+      ⟨[0x07, 0x24] ++ ((Vterm.init 4 1 false [0x07, 0x24]).run [0x61]).rl.line.text,
+       2 + ((Vterm.init 4 1 false [0x07, 0x24]).run [0x61]).rl.line.cursor, .ground⟩ := by decide
+
+/-! ### a terminal with W columns -/
+
+/-- A W-COLUMN TERMINAL WITH AUTO-WRAP SHOWS WHAT THE ONE-ROW MODEL SHOWS, for
+EVERY byte stream, as long as the cursor of the one-row model stays left of the
+last column while the stream is fed (`hw` = the highest column reached): same
+row, same cursor column, same parser state, nothing pending; the only
+difference is that the rows left behind by LF are remembered. -/
+theorem wide_terminal_is_one_row (W : Nat) (s : Screen) (bs : List Byte) (h : s.hw bs + 1 < W) :
+    ∃ above, WScreen.feed W (WScreen.ofScreen [] s) bs = WScreen.ofScreen above (s.feed bs) :=
+  wfeed_eq W [] s bs h
+
+example : Screen.blank.hw ((Vterm.init 6 2 false).echoed [0x61, 0x62, 0x63, ESC, 0x5b, 0x44, 0x78]) = 6 := by decide
+
+/- "…drives a VT100 screen model to show the same line and cursor" on a REAL
+terminal, i.e. one with W columns and auto-wrap.  The echo strategy (re-print the
+right part, `ESC[nD` back) cannot cross a row boundary: `ESC[nD` does not move up
+a row.  `_partial` = the terminal is wide enough for prompt + longest line + `^C`
+(`|prompt| + cap + 3 ≤ W`); for a narrower terminal the statement is false
+(`narrow_screen_witness`, finding C15-narrow-screen). -/
+
+/-- THE SCREEN CLAUSE ON A W-COLUMN TERMINAL WITH AUTO-WRAP (the reference
+emulator `WScreen`), `W ≥ |prompt| + cap + 3`: after every key sequence (keys and
+prompt as in `screen_matches_partial`) the current row is exactly prompt ++ line,
+the cursor column is |prompt| + cursor, no wrap is pending and the escape parser
+is in its ground state (state 2); blank row, column 0 while vtermxx owes the prompt. -/
+theorem screen_matches_wide_partial (cap depth : Nat) (hcap : 1 ≤ cap) (hd : 1 ≤ depth) (cxx : Bool)
+    (prompt : List Byte) (keys : List Byte) (hP : AllP prompt) (hk : ∀ k ∈ keys, screenKey k = true)
+    (W : Nat) (hW : prompt.length + cap + 3 ≤ W) :
+    let v0 := Vterm.init cap depth cxx prompt
+    let v := v0.run keys
+    let w := WScreen.feed W WScreen.blank (v0.echoed keys)
+    (v.state = 2 → w.cells = prompt ++ v.rl.line.text ∧ w.col = prompt.length + v.rl.line.cursor ∧
+      w.pending = false ∧ w.ps = .ground) ∧
+    (v.state ≠ 2 → w.cells = [] ∧ w.col = 0 ∧ w.pending = false ∧ w.ps = .ground) := by
+  intro v0 v w
+  have h0 := init_sim cap depth hcap hd cxx prompt
+  have hs0 : SInv (Vterm.init cap depth cxx prompt).prompt (Vterm.init cap depth cxx prompt) Screen.blank (Ref.init depth) := by
+    unfold SInv
+    rw [if_neg (show ¬ ((Vterm.init cap depth cxx prompt).state = 2) from fun e => by simp [Vterm.init] at e)]
+    rfl
+  have hhw := run_hw cap depth hd v0 (Ref.init depth) Screen.blank keys h0 (refP_init depth) rfl hP hk hs0
+    (by simp [Screen.blank])
+  have hpr : v0.prompt = prompt := rfl
+  rw [hpr] at hhw
+  obtain ⟨ab, e⟩ := wfeed_eq W [] Screen.blank (v0.echoed keys) (by omega)
+  have hw : w = WScreen.ofScreen ab (Screen.blank.feed (v0.echoed keys)) := e
+  obtain ⟨m1, m2⟩ := screen_matches_partial cap depth hcap hd cxx prompt keys hP hk
+  constructor
+  · intro h2
+    rw [hw, m1 h2]
+    exact ⟨rfl, rfl, rfl, rfl⟩
+  · intro h2
+    rw [hw, m2 h2]
+    exact ⟨rfl, rfl, rfl, rfl⟩
+
+/-- non-vacuity: prompt "$ ", an 8-byte line, 13 columns; "abcdefg" fills the line, Left, Left, "x" is refused -/
+example : (WScreen.feed 13 WScreen.blank ((Vterm.init 8 1 false).echoed
+      [0x61, 0x62, 0x63, 0x64, 0x65, 0x66, 0x67, ESC, 0x5b, 0x44, ESC, 0x5b, 0x44, 0x78])).cells =
+      [0x24, 0x20, 0x61, 0x62, 0x63, 0x64, 0x65, 0x66, 0x67] ∧
+    (WScreen.feed 13 WScreen.blank ((Vterm.init 8 1 false).echoed
+      [0x61, 0x62, 0x63, 0x64, 0x65, 0x66, 0x67, ESC, 0x5b, 0x44, ESC, 0x5b, 0x44, 0x78])).col = 7 := by decide
+
+/-- ON A NARROWER TERMINAL THE CLAUSE IS FALSE.  6 columns, prompt "$ ", an 8-byte
+line: "abcde" (the `e` wraps to the second row), Left, Left (`ESC[D` stops at
+column 0 of the second row instead of going back to the `d`), "x": the editor's
+line is "abcxde", a correct display would be the rows "$ abcx" / "de", the
+terminal shows "$ abcd" / "xde". -/
+theorem narrow_screen_witness :
+    let keys : List Byte := [0x61, 0x62, 0x63, 0x64, 0x65, ESC, 0x5b, 0x44, ESC, 0x5b, 0x44, 0x78]
+    let w := WScreen.feed 6 WScreen.blank ((Vterm.init 8 1 false).echoed keys)
+    ((Vterm.init 8 1 false).run keys).rl.line.text = [0x61, 0x62, 0x63, 0x78, 0x64, 0x65] ∧
+    w.above.reverse ++ [w.cells] = [[0x24, 0x20, 0x61, 0x62, 0x63, 0x64], [0x78, 0x64, 0x65]] ∧
+    WScreen.chunks 6 8 ([0x24, 0x20] ++ ((Vterm.init 8 1 false).run keys).rl.line.text) =
+      [[0x24, 0x20, 0x61, 0x62, 0x63, 0x78], [0x64, 0x65]] := by decide
+
+/-! ### the twins refine ONE reference editor -/
+
+/-- vterm.c and igris::vtermxx, driven by the same actions (keys as bytes or `int16_t`, init steps,
+`set_prompt`, `set_echo` in any order): the same callback events, the same line, cursor and browse
+position before the next call — because both refine the same reference editor
+(`session_with_settings`).  (The written bytes may differ when the prompt is changed while vtermxx
+still owes it: vterm.c has printed the old one already.) -/
+theorem twins_refine_one_editor (cap depth : Nat) (hcap : 1 ≤ cap) (hd : 1 ≤ depth) (prompt : List Byte) (as : List Act) :
+    let c := Vterm.init cap depth false prompt
+    let x := Vterm.init cap depth true prompt
+    c.actEvents as = x.actEvents as ∧ (c.runActs as).nrl.line.text = (x.runActs as).nrl.line.text ∧
+    (c.runActs as).nrl.line.cursor = (x.runActs as).nrl.line.cursor ∧
+    (c.runActs as).nrl.curhist = (x.runActs as).nrl.curhist := by
+  intro c x
+  obtain ⟨a1, _, a2, a3, a4⟩ := session_with_settings cap depth hcap hd false prompt as
+  obtain ⟨b1, _, b2, b3, b4⟩ := session_with_settings cap depth hcap hd true prompt as
+  exact ⟨a1.trans b1.symm, a2.trans b2.symm, a3.trans b3.symm, a4.trans b4.symm⟩
+
+/-- the written bytes CAN differ: Enter, then `set_prompt`, then a key -/
+example : (Vterm.init 4 1 false).actEchoed [.key CR, .setPrompt [0x3e], .key 0x61] ≠
+    (Vterm.init 4 1 true).actEchoed [.key CR, .setPrompt [0x3e], .key 0x61] := by decide
+
+/-- more corner cases of the key grammar (Keys.lean), as the code decodes them: Home / End sent as
+`ESC [ 1 ~` / `ESC [ 4 ~`, application-mode arrows `ESC O A`, modified arrows `ESC [ 1 ; 5 C` are
+unknown escapes whose tail is typed as text; two ESC in a row swallow each other; an escape
+sequence split anywhere is the same keys (the grammar sees the concatenation) -/
+example : keyPresses [ESC, 0x5b, 0x31, 0x7e] = [.char 0x7e] ∧
+    keyPresses [ESC, 0x4f, 0x41] = [.char 0x41] ∧
+    keyPresses [ESC, 0x5b, 0x31, 0x3b, 0x35, 0x43] = [.char 0x3b, .char 0x35, .char 0x43] ∧
+    keyPresses [ESC, ESC, 0x5b, 0x41] = [.char 0x5b, .char 0x41] ∧
+    keyPresses ([ESC] ++ [0x5b] ++ [0x41]) = [.up] ∧
+    keyPresses [ESC, 0x5b] = [] := by decide
 
 end Igris.C15
